@@ -595,7 +595,20 @@ func (v *Verifier) VerifyFunc(key string) (res *FuncResult) {
 				sort.Strings(res.Notes)
 				return
 			}
-			panic(r)
+			if os.Getenv("GOWP_STACK") != "" {
+				panic(r)
+			}
+			// the encoder refused a term (ill-sorted select/store, a contract expression that no longer fits the
+			// code's types, ...): the function's obligations cannot be generated, which is reported like any other
+			// function that left the subset - never as a pass
+			msg := fmt.Sprint(r)
+			if len(msg) > 300 {
+				msg = msg[:300] + "..."
+			}
+			res.Unsupported = "the contract no longer fits the code (encoder: " + msg + ")"
+			res.Obls = nil
+			res.Paths = x.Paths
+			return
 		}
 	}()
 	x.ghostLetNames = map[string]bool{}
